@@ -74,6 +74,7 @@ def Gm.mdl (g : Gm) (expl : Rat) (slack : Option Rat) (entropy : Bool) : Mdl :=
     rollOff := if g.kind == 2 then Gen.C19.pomcpRollOff else Gen.C19.mctsRollOff,
     rollGuard := Gen.C19.pomcpRollGuard,
     advGuard := if g.kind == 2 then Gen.C19.pomcpAdvGuard else Gen.C19.mctsAdvGuard,
+    rLeafV := Gen.C19.rpomcpLeafV,
     numA := g.nA,
     valid := g.valid }
 
@@ -445,7 +446,16 @@ def rDumpClauses (g : Gm) (d : List RNode) : List String :=
              (if g.layered then x / g.nb == (if s / g.nb + 1 ≥ g.tcap then g.tcap - 1 else s / g.nb + 1) else x / g.nb == s / g.nb)))
           if ok then acc else acc ++ [s!"particle_inconsistent at {n.path}: state {x} not reachable by action {a} obs {k} from the parent's particles {pn.tb}"]) acc) []
 
+/-- rPOMCP, max-of-belief: action values against `[0, 1 + γ + … + γ^(rem-1)]`, `rem` = steps left below the node -/
+def rRangeClauses (g : Gm) (d : List RNode) (budget : Nat) : List String :=
+  d.foldl (fun (acc : List String) n =>
+    let rem := budget - n.path.length
+    let hi := hiR g.gamma 1 rem
+    n.acts.foldl (fun acc x => if x.1 != 0 && (x.2 < 0 - tol || hi + tol < x.2) then
+      acc ++ [s!"value_outside_return_range at {n.path} depth={n.path.length} steps_left={rem} V={ratStr x.2} N={x.1} range=[0,{ratStr hi}]"] else acc) acc) []
+
 structure RSt where
+  budget : Nat := 0
   t : R.RTree
   prev : List RNode
   diffs : List String
@@ -485,6 +495,11 @@ def runRCall (g : Gm) (mk : Rat → Mdl) (kk : Nat) (st : RSt) (c : RCallRec) : 
             | none => false) then fails
        else fails ++ [s!"{cn} advance_lost_subtree after ({c.a},{c.k}) iters={c.iters}: a node of the promoted subtree is missing or shrank"])
     else fails
+  -- max-of-belief: the "returns" are knowledge measures in [0, 1] (`R.km_is_max_frequency`), one per step: every action value
+  -- must lie in the range of discounted sums over the remaining horizon (strict bound: `rrng` line; here with no slack either,
+  -- the rPOMCP simulations never run past the horizon)
+  let budget := if hit then (if st.budget - 1 < c.h then c.h else st.budget - 1) else c.h
+  let fails := if !m.entropy then fails ++ (rRangeClauses g c.dump budget).map (fun s => s!"{cn} {s}") else fails
   let diffs := st.diffs
   let (t', diffs, fails) := match R.rcall m kk st.t op c.log with
     | none => (st.t, diffs ++ [s!"{cn} trace_not_a_run call h={c.h} iters={c.iters} steps={c.log.length}"], fails)
@@ -498,7 +513,7 @@ def runRCall (g : Gm) (mk : Rat → Mdl) (kk : Nat) (st : RSt) (c : RCallRec) : 
   let rootVs : List Rat := match rootD with | some r => r.acts.map (fun x => x.2) | none => []
   let bestM := if c.h == 0 then 0 else argmaxV (fun a => rootVs.getD a 0) rootVs.length
   let diffs := if bestM != c.ret then diffs ++ [s!"{cn} returned_action model={bestM} impl={c.ret}"] else diffs
-  { t := t', prev := c.dump, diffs := diffs, fails := fails, sims := st.sims + c.iters }
+  { t := t', prev := c.dump, diffs := diffs, fails := fails, sims := st.sims + c.iters, budget := budget }
 
 def rrun : P String := do
   let g ← pGm
